@@ -9,7 +9,7 @@
   vertex_spacing))`); the pinned expression `int(round(size / spacing + 10e-8))` is kept as
   `gridCountPinned` for the refutation.
 
-  Trimmed tessellation (`surface_trim_tessellate`) is NOT modelled.
+  Trimmed tessellation (`surface_trim_tessellate` and the cell loop that calls it) is modelled in Model/TrimMesh.lean.
 -/
 namespace Geomdl
 
